@@ -8,6 +8,16 @@
 Handlers are modelled by the protocol H1-H3: x(self, SUPER|EMPTY) moves the cursor to parent(x); an INIT/USER answer of TRAN
 re-bases everything on the new target (cursor = T, d = 0, K = -1); any other handler call leaves the cursor unknown.
 
+With track_source=True (dispatch) a second chain is tracked the same way - the *active* chain of the chart at the start of the step:
+  e(v)     for a handler-valued variable v known to be an ancestor of the current state C: v == A(C, e(v))  (zone variables E:...)
+  NX       the number of EXIT calls made so far in this step;  KS = e(S), the depth of the state that answered the event with TRAN
+  Wm, Wq   the witness of the common ancestor: the most recent identity/equality test that came out true between a state of the
+           active chain (depth Wm) and an ancestor of the target (depth Wq); for S is T the witness is the pair of their parents
+  O6-exit     every EXIT call goes to the state of the active chain at depth NX (exits climb one level at a time from the current
+              state: none skipped, none repeated, nothing outside the chain)
+  O6-lca      where the callee that computes the entry path returns index r: an equality A(C, Wm) == A(T, Wq) has been tested on this
+              path, NX == Wm (exactly the states below that common state were exited) and r == Wq - 1 (entry starts just below it)
+
 Obligations:
   O4-content  a store/append of an ancestor of T into slot i has d == i  (slot k holds the k-th ancestor of the target)
   O5-content  every ENTRY call made through the buffer reads a slot <= K (its content is known to be an ancestor of the target),
@@ -24,9 +34,10 @@ CUR = '@cur'
 
 
 class ContentAnalysis(BufferAnalysis):
-    def __init__(self, entry, callees=None, cursor_is_target_at_entry=False):
+    def __init__(self, entry, callees=None, cursor_is_target_at_entry=False, track_source=False):
         super().__init__(entry, callees)
         self.cursor_at_entry = cursor_is_target_at_entry
+        self.track_source = track_source
         self.sig = {}
         self.hlocals = {}
         for f, fr in self.frames.items():
@@ -35,20 +46,34 @@ class ContentAnalysis(BufferAnalysis):
             self.hlocals[f] = self._handler_locals(f, fr)
             for v in self.hlocals[f]:
                 self.names.append(self.dvar(fr, v))
+                self.names.append(self.evar(fr, v))
         self.names.append('D:' + CUR)
+        self.names.extend(['E:' + CUR, 'D:@lastfn', 'E:@lastfn', 'NX', 'KS', 'Wm', 'Wq'])
         self.kvars = {}
         for fr in self.frames.values():
             for b, L in fr.bufenv.items():
                 if L not in self.kvars:
                     self.kvars[L] = 'K:' + L
                     self.names.append('K:' + L)
+        # slots addressed by a constant index may park a state of the active chain (dispatch hands the source to its callee that way)
+        self.const_slots = sorted({n.slice.value for f in self.frames for n in ast.walk(f.node)
+                                   if isinstance(n, ast.Subscript) and isinstance(n.slice, ast.Constant) and type(n.slice.value) is int and n.slice.value >= 0})
+        for L in self.kvars:
+            for c in self.const_slots:
+                self.names.append('E:@ss:%s:%d' % (L, c))
 
     # ------------------------------------------------------------ helpers
     def dvar(self, fr, name):
         return 'D:%s.%s' % (fr.prefix, name)
 
+    def evar(self, fr, name):
+        return 'E:%s.%s' % (fr.prefix, name)
+
     def okey(self, fr, name):
         return 'o:%s.%s' % (fr.prefix, name)
+
+    def skey(self, fr, name):
+        return 's:%s.%s' % (fr.prefix, name)
 
     def _handler_locals(self, f, fr):
         selfn = f.params[0]
@@ -73,7 +98,7 @@ class ContentAnalysis(BufferAnalysis):
                 if isinstance(t, ast.Name) and t.id not in out and t.id not in fr.intenv and t.id not in fr.bufenv and t.id not in fr.flagenv:
                     d = dotted(v)
                     hv = (d in (selfn + '.temp.fun', selfn + '.state.fun')) or (isinstance(v, ast.Name) and v.id in out) or \
-                        (isinstance(v, ast.Subscript) and isinstance(v.value, ast.Name) and v.value.id in fr.bufenv)
+                        (isinstance(v, ast.Subscript) and isinstance(v.value, ast.Name) and (v.value.id in fr.bufenv or v.value.id in f.params[1:]))
                     if hv:
                         out.add(t.id)
                         changed = True
@@ -82,41 +107,68 @@ class ContentAnalysis(BufferAnalysis):
     def is_cursor(self, e, fr):
         return dotted(e) == fr.func.params[0] + '.temp.fun'
 
+    def is_statefun(self, e, fr):
+        return dotted(e) == fr.func.params[0] + '.state.fun'
+
     def hval(self, e, fr, fl, z):
-        """abstract handler value: ('T', (zvar, const)) = A(T, zvar+const), or None"""
+        """abstract handler value (T, S): T = (zvar, const) when the value is A(target, zvar+const), S = (zvar, const) when it is
+        A(current state, zvar+const); either part may be None"""
+        T = S = None
         if self.is_cursor(e, fr):
             if fl.get('o:' + CUR) == 'T':
-                return ('T', ('D:' + CUR, 0))
-            return None
-        if isinstance(e, ast.Name) and e.id in self.hlocals.get(fr.func, ()):
+                T = ('D:' + CUR, 0)
+            if fl.get('s:' + CUR) == 'S':
+                S = ('E:' + CUR, 0)
+        elif self.is_statefun(e, fr):
+            if fl.get('s:@state') == 'S':
+                S = ('0', 0)
+        elif isinstance(e, ast.Name) and e.id in self.hlocals.get(fr.func, ()):
             if fl.get(self.okey(fr, e.id)) == 'T':
-                return ('T', (self.dvar(fr, e.id), 0))
-            return None
-        if isinstance(e, ast.Subscript) and isinstance(e.value, ast.Name) and e.value.id in fr.bufenv:
+                T = (self.dvar(fr, e.id), 0)
+            if fl.get(self.skey(fr, e.id)) == 'S':
+                S = (self.evar(fr, e.id), 0)
+        elif isinstance(e, ast.Subscript) and isinstance(e.value, ast.Name) and e.value.id in fr.bufenv:
             i = self.iexpr(e.slice, fr)
-            if i is None:
-                return None
-            K = self.kvars[fr.bufenv[e.value.id]]
-            x, c = i
-            if z.entails(x, K, -c) and z.entails('0', x, c):     # 0 <= i <= K
-                return ('T', i)
-            return None
-        return None
+            if i is not None:
+                L = fr.bufenv[e.value.id]
+                K = self.kvars[L]
+                x, c = i
+                if z.entails(x, K, -c) and z.entails('0', x, c):     # 0 <= i <= K
+                    T = i
+                if x == '0' and fl.get('ss:%s:%d' % (L, c)) == 'S':      # a constant slot that holds a state of the active chain
+                    S = ('E:@ss:%s:%d' % (L, c), 0)
+        return (T, S)
 
-    def set_h(self, name_key, dvar, val, fl, z):
-        if val is None:
-            fl[name_key] = 'X'
-            z.forget(dvar)
-        else:
-            fl[name_key] = 'T'
-            x, c = val[1]
-            if x == dvar:
-                z.assign(dvar, dvar, c)
+    def _set_part(self, flagkey, mark, zvar, part, fl, z):
+        if part is None:
+            if mark == 'T':
+                fl[flagkey] = 'X'
             else:
-                z.assign(dvar, x, c)
+                fl.pop(flagkey, None)
+            z.forget(zvar)
+        else:
+            fl[flagkey] = mark
+            x, c = part
+            if x == zvar:
+                z.assign(zvar, zvar, c)
+            else:
+                z.assign(zvar, x, c)
 
-    def rebase(self, fl, z):
-        """a handler answered TRAN: the cursor is the new target"""
+    def set_h(self, base, hv, fl, z):
+        """bind the handler variable `base` ('@cur', '@lastfn' or '<frame>.<local>') to the abstract value hv = (T, S)"""
+        T, S = hv if hv is not None else (None, None)
+        # a part that refers to the variable being overwritten is evaluated before the overwrite by Zone.assign(x, x, c)
+        self._set_part('o:' + base, 'T', 'D:' + base, T, fl, z)
+        if self.track_source:
+            self._set_part('s:' + base, 'S', 'E:' + base, S, fl, z)
+
+    def shift(self, hv, k):
+        T, S = hv
+        return ((T[0], T[1] + k) if T else None, (S[0], S[1] + k) if S else None)
+
+    def rebase(self, fl, z, user):
+        """a handler answered TRAN: the cursor is the new target.  For the answer to the caller's event the handler that answered is the source S
+        (its depth on the active chain becomes KS, the chain facts stay); for an INIT answer the step's exit phase is over"""
         for k in list(fl):
             if k.startswith('o:'):
                 fl[k] = 'X'
@@ -124,6 +176,19 @@ class ContentAnalysis(BufferAnalysis):
         z.assign('D:' + CUR, '0', 0)
         for K in self.kvars.values():
             z.assign(K, '0', -1)
+        if self.track_source:
+            if user and fl.get('s:@lastfn') == 'S':
+                fl['ks'] = '1'
+                z.assign('KS', 'E:@lastfn', 0)
+            else:
+                fl.pop('ks', None)
+                z.forget('KS')
+            if not user:
+                for k in list(fl):
+                    if k.startswith('s:') or k.startswith('ss:') or k == 'w':
+                        del fl[k]
+            fl.pop('s:' + CUR, None)
+            z.forget('E:' + CUR)
 
     # ------------------------------------------------------------ handler calls inside expressions
     def calls_effect(self, st, expr, fr):
@@ -135,13 +200,24 @@ class ContentAnalysis(BufferAnalysis):
             def f(fl, z, c=c, sigs=sigs):
                 hv = self.hval(c.func, fr, fl, z)
                 if sigs == {'ENTRY'}:
-                    ok = hv is not None
+                    ok = hv[0] is not None
                     self.rec('O5-content', fr, c, 'OK' if ok else 'FAIL(slot content unknown)', '%s %s' % (fl, z.show()))
-                if sigs and sigs <= {'SUPER', 'EMPTY'} and hv is not None:
-                    x, k = hv[1]
-                    self.set_h('o:' + CUR, 'D:' + CUR, ('T', (x, k + 1)), fl, z)
+                if self.track_source and 'EXIT' in sigs:
+                    S = hv[1]
+                    ok = S is not None and z.entails(S[0], 'NX', -S[1]) and z.entails('NX', S[0], S[1])       # e(x) == NX
+                    self.rec('O6-exit', fr, c, 'OK' if ok else ('FAIL(not the next state of the active chain)' if S is not None else 'FAIL(not known to be on the active chain)'),
+                             '%s %s' % (fl, z.show()))
+                    if S is not None:
+                        z.le(S[0], 'NX', -S[1])
+                        z.le('NX', S[0], S[1])
+                    z.assign('NX', 'NX', 1)
+                # remember who was asked (both chains), for answers that are tested later
+                self.set_h('@lastfn', hv, fl, z)
+                fl['lastsig'] = ','.join(sorted(sigs))
+                if sigs and sigs <= {'SUPER', 'EMPTY'} and (hv[0] is not None or hv[1] is not None):
+                    self.set_h(CUR, self.shift(hv, 1), fl, z)
                 else:
-                    self.set_h('o:' + CUR, 'D:' + CUR, None, fl, z)
+                    self.set_h(CUR, None, fl, z)
                 fl['o:last'] = ''
                 return (fl, z)
             st = st.map(f)
@@ -165,35 +241,41 @@ class ContentAnalysis(BufferAnalysis):
         # stores into the buffer: content obligations and frontier update (index obligation first, by the base class)
         if isinstance(tgt, ast.Subscript) and self.is_buf(tgt.value, fr):
             st = super().assign1(st, tgt, val, fr)
-            return self.store_content(st, fr.bufenv[tgt.value.id], self.iexpr(tgt.slice, fr), val, fr, tgt, 'store')
+
+            def pre(fl, z):
+                return self.hval(val, fr, fl, z) if val is not None else (None, None)
+            return self.store_content(st, fr.bufenv[tgt.value.id], self.iexpr(tgt.slice, fr), pre, fr, tgt, 'store')
         if dotted(tgt) is not None:
             st = self.kill_facts(st, fr, path=dotted(tgt))
-        if self.is_cursor(tgt, fr):
+        if self.is_statefun(tgt, fr):
             def f(fl, z):
-                hv = self.hval(val, fr, fl, z) if val is not None else None
-                self.set_h('o:' + CUR, 'D:' + CUR, hv, fl, z)
+                fl.pop('s:@state', None)
                 return (fl, z)
             return st.map(f)
-        if isinstance(tgt, ast.Name) and tgt.id in self.hlocals.get(fr.func, ()):
+        base = CUR if self.is_cursor(tgt, fr) else ('%s.%s' % (fr.prefix, tgt.id) if isinstance(tgt, ast.Name) and tgt.id in self.hlocals.get(fr.func, ()) else None)
+        if base is not None:
             def f(fl, z):
                 hv = self.hval(val, fr, fl, z) if val is not None else None
-                self.set_h(self.okey(fr, tgt.id), self.dvar(fr, tgt.id), hv, fl, z)
+                self.set_h(base, hv, fl, z)
                 return (fl, z)
             return st.map(f)
         return super().assign1(st, tgt, val, fr)
 
-    def store_content(self, st, L, idx, val, fr, node, how):
+    def store_content(self, st, L, idx, hvf, fr, node, how):
+        """a value is stored into slot idx of buffer L; hvf(fl, z) gives its abstract handler value"""
         K = self.kvars[L]
 
         def f(fl, z):
-            hv = self.hval(val, fr, fl, z) if val is not None else None
+            hv = hvf(fl, z)
+            T, S = hv
+            self.source_slot(fl, z, L, idx, S)
             if idx is None:
                 z.forget(K)
                 z.le('0', K, 1)      # K >= -1
                 return (fl, z)
             x, c = idx
-            if hv is not None:
-                dx, dc = hv[1]
+            if T is not None:
+                dx, dc = T
                 ok = z.entails(dx, x, c - dc) and z.entails(x, dx, dc - c)       # d == i
                 self.rec('O4-content', fr, node, 'OK' if ok else 'FAIL(depth != slot)', '%s %s' % (fl, z.show()))
                 if ok:
@@ -208,13 +290,34 @@ class ContentAnalysis(BufferAnalysis):
                 if z.entails(K, x, c - 1):                                       # i >= K+1 : beyond the frontier, frontier unchanged
                     return (fl, z)
             # the frontier may shrink to i-1
-            z2 = z.copy()
             z.forget(K)
             z.le('0', K, 1)
             # K_new <= i - 1
             z.le(K, x, c - 1)
             return (fl, z)
         return st.map(f)
+
+    def source_slot(self, fl, z, L, idx, S):
+        """remember the constant slots that hold a state of the active chain (dispatch parks the source there for the callee)"""
+        if not self.track_source:
+            return
+        const = idx[1] if (idx is not None and idx[0] == '0') else None
+        for c in self.const_slots:
+            key = 'ss:%s:%d' % (L, c)
+            var = 'E:@ss:%s:%d' % (L, c)
+            if const is not None:
+                if c != const:
+                    continue
+                if S is not None:
+                    fl[key] = 'S'
+                    z.assign(var, S[0], S[1])
+                    continue
+            elif key not in fl:
+                continue
+            elif idx is not None and (z.entails(idx[0], '0', c - idx[1] - 1) or z.entails('0', idx[0], idx[1] - c - 1)):      # i < c or i > c : another slot
+                continue
+            fl.pop(key, None)
+            z.forget(var)
 
     # ------------------------------------------------------------ statements
     def stmt(self, s, st, fr, ctl):
@@ -223,11 +326,6 @@ class ContentAnalysis(BufferAnalysis):
             if isinstance(tgt, ast.Tuple) and isinstance(s.value, ast.Tuple) and len(tgt.elts) == len(s.value.elts):
                 # evaluate handler calls / loads of the right-hand side once, then bind element-wise against the pre-state values
                 st = self.loads(st, s.value, fr)
-
-                def pre(fl, z):
-                    vals = [self.hval(v, fr, fl, z) for v in s.value.elts]
-                    # materialise depths as constants relative to existing vars before any target is overwritten
-                    return (fl, z, vals)
                 out = St()
                 for key, z in st.parts.items():
                     if z.bot:
@@ -235,9 +333,9 @@ class ContentAnalysis(BufferAnalysis):
                     fl = dict(key)
                     z = z.copy()
                     vals = [self.hval(v, fr, fl, z) for v in s.value.elts]
-                    # snapshot depth variables into temporaries by immediately assigning to targets in order; a target's own old value is
-                    # only read by later elements if they mention it, which the processor's tuple assignments never do for handlers
-                    sub = St({tuple(sorted(fl.items())): z})
+                    # depth variables are bound to the targets in order; a target's own old value is only read by later elements if they
+                    # mention it, which the processor's tuple assignments never do for handlers
+                    sub = St({tuple(sorted(fl.items(), key=lambda kv: kv[0])): z})
                     for t, v, hv in zip(tgt.elts, s.value.elts, vals):
                         sub = self._assign_pre(sub, t, v, hv, fr)
                     out = out.join(sub)
@@ -256,80 +354,121 @@ class ContentAnalysis(BufferAnalysis):
             if isinstance(c, ast.Call) and isinstance(c.func, ast.Attribute) and c.func.attr == 'append' and self.is_buf(c.func.value, fr):
                 g = ctl.get('grow')
                 L = fr.bufenv[c.func.value.id]
+                val = c.args[0] if c.args else None
+                # the abstract value of the appended expression is taken before the length changes
                 st2 = super().stmt(s, st, fr, ctl)     # index obligation O2 and L += 1
                 # the appended element lands at index L_old == grow index (assumed after O2)
-                val = c.args[0] if c.args else None
                 if g is not None:
-                    return self.store_content(st2, L, g, val, fr, s, 'append')
+                    def pre(fl, z):
+                        return self.hval(val, fr, fl, z) if val is not None else (None, None)
+                    return self.store_content(st2, L, g, pre, fr, s, 'append')
                 return st2
+        if isinstance(s, ast.Return) and self.track_source and fr.func is not self.entry:
+            self.check_lca(st, s, fr)
         return super().stmt(s, st, fr, ctl)
+
+    def check_lca(self, st, s, fr):
+        r = self.iexpr(s.value, fr) if s.value is not None else None
+
+        def f(fl, z):
+            if r is None:
+                self.rec('O6-lca', fr, s, 'UNRESOLVED', 'the returned entry index %s is not an affine integer expression' % (norm(s.value) if s.value is not None else None))
+                return (fl, z)
+            x, c = r
+            if fl.get('w') != '1':
+                self.rec('O6-lca', fr, s, 'FAIL(no common-ancestor test passed on this path)', '%s %s' % (fl, z.show()))
+                return (fl, z)
+            ex_ok = z.entails('NX', 'Wm', 0) and z.entails('Wm', 'NX', 0)                   # NX == Wm
+            en_ok = z.entails(x, 'Wq', -1 - c) and z.entails('Wq', x, c + 1)                # r == Wq - 1
+            v = 'OK' if ex_ok and en_ok else 'FAIL(%s)' % ', '.join(
+                ([] if ex_ok else ['the states exited are not exactly those below the common state']) +
+                ([] if en_ok else ['entry does not start just below the common state']))
+            self.rec('O6-lca', fr, s, v, '%s %s' % (fl, z.show()))
+            return (fl, z)
+        st.map(f)
 
     def _assign_pre(self, st, tgt, val, hv, fr):
         """assign with a pre-computed handler value (parallel assignment)"""
         if isinstance(tgt, ast.Subscript) and self.is_buf(tgt.value, fr):
             st = BufferAnalysis.assign1(self, st, tgt, val, fr)
-            L = fr.bufenv[tgt.value.id]
-            idx = self.iexpr(tgt.slice, fr)
-            K = self.kvars[L]
-
-            def f(fl, z):
-                if idx is None:
-                    z.forget(K)
-                    z.le('0', K, 1)
-                    return (fl, z)
-                x, c = idx
-                if hv is not None:
-                    dx, dc = hv[1]
-                    ok = z.entails(dx, x, c - dc) and z.entails(x, dx, dc - c)
-                    self.rec('O4-content', fr, tgt, 'OK' if ok else 'FAIL(depth != slot)', '%s %s' % (fl, z.show()))
-                    if ok:
-                        if z.entails(x, K, 1 - c) and z.entails(K, x, c - 1):
-                            z.assign(K, x, c)
-                            return (fl, z)
-                        if z.entails(x, K, -c) or z.entails(K, x, c - 2):
-                            return (fl, z)
-                else:
-                    if z.entails(K, x, c - 1):
-                        return (fl, z)
-                z.forget(K)
-                z.le('0', K, 1)
-                z.le(K, x, c - 1)
-                return (fl, z)
-            return st.map(f)
+            return self.store_content(st, fr.bufenv[tgt.value.id], self.iexpr(tgt.slice, fr), lambda fl, z: hv, fr, tgt, 'store')
         if dotted(tgt) is not None:
             st = self.kill_facts(st, fr, path=dotted(tgt))
-        if self.is_cursor(tgt, fr):
+        if self.is_statefun(tgt, fr):
             def f(fl, z):
-                self.set_h('o:' + CUR, 'D:' + CUR, hv, fl, z)
+                fl.pop('s:@state', None)
                 return (fl, z)
             return st.map(f)
-        if isinstance(tgt, ast.Name) and tgt.id in self.hlocals.get(fr.func, ()):
+        base = CUR if self.is_cursor(tgt, fr) else ('%s.%s' % (fr.prefix, tgt.id) if isinstance(tgt, ast.Name) and tgt.id in self.hlocals.get(fr.func, ()) else None)
+        if base is not None:
             def f(fl, z):
-                self.set_h(self.okey(fr, tgt.id), self.dvar(fr, tgt.id), hv, fl, z)
+                self.set_h(base, hv, fl, z)
                 return (fl, z)
             return st.map(f)
         return BufferAnalysis.assign1(self, st, tgt, val, fr)
 
-    # ------------------------------------------------------------ guards: learning that a handler answered TRAN
+    # ------------------------------------------------------------ guards: learning from answers and from identity tests
     def guard(self, st, test, pol, fr):
         st = super().guard(st, test, pol, fr)
         if isinstance(test, ast.Compare) and len(test.ops) == 1:
             l, op, r = test.left, type(test.ops[0]), test.comparators[0]
             sc = status_const(r) or status_const(l)
             other = l if status_const(r) else r
+            direct = isinstance(other, ast.Call) and id(other) in self.sig
+
+            def is_answer(fl):
+                return direct or (isinstance(other, ast.Name) and fl.get('o:last') == '%s.%s' % (fr.prefix, other.id))
             learns = False
             if sc == 'TRAN':
                 if op in (ast.Eq, ast.Is, ast.GtE) and pol:
                     learns = True
                 if op in (ast.NotEq, ast.IsNot, ast.Lt) and not pol:
                     learns = True
-            direct = isinstance(other, ast.Call) and id(other) in self.sig
             if learns:
                 def f(fl, z):
-                    if direct or (isinstance(other, ast.Name) and fl.get('o:last') == '%s.%s' % (fr.prefix, other.id)):
-                        self.rebase(fl, z)
+                    if is_answer(fl):
+                        self.rebase(fl, z, user=fl.get('lastsig') in ('USER', 'EMPTY'))
                     return (fl, z)
                 st = st.map(f)
+            # H1/H2: an answer of SUPER - or, to EXIT/ENTRY, anything but HANDLED - means the handler named its parent: the cursor is parent(asked)
+            equal = (op in (ast.Eq, ast.Is) and pol) or (op in (ast.NotEq, ast.IsNot) and not pol)
+            differs = (op in (ast.Eq, ast.Is) and not pol) or (op in (ast.NotEq, ast.IsNot) and pol)
+            if (sc == 'SUPER' and equal) or (sc == 'HANDLED' and differs):
+                def f(fl, z, sc=sc):
+                    if not is_answer(fl):
+                        return (fl, z)
+                    if sc == 'HANDLED' and fl.get('lastsig') not in ('EXIT', 'ENTRY'):
+                        return (fl, z)
+                    hv = ((('D:@lastfn', 0) if fl.get('o:@lastfn') == 'T' else None), (('E:@lastfn', 0) if fl.get('s:@lastfn') == 'S' else None))
+                    if hv[0] is not None or hv[1] is not None:
+                        self.set_h(CUR, self.shift(hv, 1), fl, z)
+                    return (fl, z)
+                st = st.map(f)
+            # identity / equality of two handler values
+            if sc is None and op in (ast.Eq, ast.Is, ast.NotEq, ast.IsNot):
+                equal = (op in (ast.Eq, ast.Is)) == pol
+                if equal:
+                    def f(fl, z):
+                        a = self.hval(l, fr, fl, z)
+                        b = self.hval(r, fr, fl, z)
+                        # a tree has no repeated ancestors: equal states of one chain have equal depth
+                        for i in (0, 1):
+                            if a[i] is not None and b[i] is not None:
+                                z.le(a[i][0], b[i][0], b[i][1] - a[i][1])
+                                z.le(b[i][0], a[i][0], a[i][1] - b[i][1])
+                        if self.track_source:
+                            pair = (a[1], b[0]) if (a[1] is not None and b[0] is not None) else ((b[1], a[0]) if (b[1] is not None and a[0] is not None) else None)
+                            if pair is not None:
+                                (sx, sk), (tx, tk) = pair
+                                z.assign('Wm', sx, sk)
+                                z.assign('Wq', tx, tk)
+                                fl['w'] = '1'
+                                # the source is the target (self transition): UML exits and re-enters it - the common state is the parent of both
+                                if fl.get('ks') == '1' and z.entails('Wm', 'KS', 0) and z.entails('KS', 'Wm', 0) and z.entails('Wq', '0', 0) and z.entails('0', 'Wq', 0):
+                                    z.assign('Wm', 'Wm', 1)
+                                    z.assign('Wq', 'Wq', 1)
+                        return (fl, z)
+                    st = st.map(f)
         return st
 
     def inline(self, st, tgt, call, fr):
@@ -338,10 +477,11 @@ class ContentAnalysis(BufferAnalysis):
 
         def f(fl, z):
             for k in list(fl):
-                if k.startswith('o:%s.' % cfr.prefix):
+                if k.startswith('o:%s.' % cfr.prefix) or k.startswith('s:%s.' % cfr.prefix):
                     del fl[k]
             for v in self.hlocals.get(cfr.func, ()):
                 z.forget(self.dvar(cfr, v))
+                z.forget(self.evar(cfr, v))
             if fl.get('o:last', '').startswith(cfr.prefix + '.'):
                 fl['o:last'] = ''
             return (fl, z)
@@ -358,6 +498,12 @@ class ContentAnalysis(BufferAnalysis):
         if self.cursor_at_entry:
             fl['o:' + CUR] = 'T'
             z.assign('D:' + CUR, '0', 0)
+        if self.track_source:
+            # between steps the cursor is the current state (HSM-CURSOR.I1): both are depth 0 of the active chain; nothing exited yet
+            fl['s:' + CUR] = 'S'
+            fl['s:@state'] = 'S'
+            z.assign('E:' + CUR, '0', 0)
+            z.assign('NX', '0', 0)
         rets = []
-        self.block(self.entry.node.body, St({tuple(sorted(fl.items())): z}), fr, {'returns': rets})
+        self.block(self.entry.node.body, St({tuple(sorted(fl.items(), key=lambda kv: kv[0])): z}), fr, {'returns': rets})
         return [self.obl[k] for k in self.order]
